@@ -14,4 +14,15 @@ t = open("/verif/tools/seed_prompt.txt").read()
 for k, v in {"{WT}": wt, "{OUT}": out, "{PID}": pid, "{TITLE}": p["title"], "{STATEMENT}": p["statement"],
              "{QUANT}": p["quantifier"]["text"], "{FILES}": ", ".join(p["anchors"]["files"]), "{N}": n}.items():
     t = t.replace(k, v)
-print(t)
+# ideas already tried in earlier rounds (summaries written by earlier sub-agents; nothing about /verif): ask for different ones
+import glob
+tried = []
+for m in sorted(glob.glob(f"/verif/seeded/{pid}-*/meta.json")):
+    try:
+        j = json.load(open(m)); tried.append("  - " + ", ".join(j.get("files_changed", [])) + ": " + j.get("summary", "")[:260].replace("\n", " "))
+    except Exception:
+        pass
+if tried:
+    t += "\nALREADY TRIED in earlier rounds (do NOT repeat these or near-variants of them; choose other code sites and other mechanisms, preferably in anchored files or functions not listed here):\n" + "\n".join(tried) + "\n"
+open(f"/tmp/seed/{pid}{tag}-prompt.txt", "w").write(t)
+print(f"/tmp/seed/{pid}{tag}-prompt.txt")
